@@ -270,7 +270,9 @@ IdxDom(t) ==
 \* x[i] = v / del x[i] on a variable declared tuple/str/bytes is rejected at compile time
 Compiles(c, op) == op = "get" \/ c.decl = "object" \/ Mutable(c.kind)
 Lens == (-1)..MaxLen
-OpsM == {<<"get", 0>>, <<"del", 0>>, <<"set", 0>>, <<"set", 1>>, <<"set", 2>>}
+\* <<operation, length of the assigned value, type of the assigned value>>: "same" = the container's own type,
+\* "other" = another iterable (tuple for a list, bytes for a bytearray)
+OpsM == {<<"get", 0, "-">>, <<"del", 0, "-">>, <<"set", 0, "same">>, <<"set", 1, "same">>, <<"set", 1, "other">>, <<"set", 2, "other">>}
 
 SliceStarts == {20000} \cup CVals \cup OInts \cup {20001, 20002}
 StopDom(sb) ==
@@ -282,7 +284,7 @@ StopDom(sb) ==
 XVals == {NONE} \cup Small \cup {SMIN, SMAX, -BIGI, BIGI}
 XSteps == {NONE, -BIGI, SMIN, -3, -2, -1, 0, 1, 2, 3, SMAX, BIGI}
 XConts == {c \in Conts : c.decl = "typed" \/ c.kind \in {"list", "tuple"}}
-XOps(c) == IF Mutable(c.kind) THEN OpsM ELSE {<<"get", 0>>, <<"del", 0>>, <<"set", 1>>}
+XOps(c) == IF Mutable(c.kind) THEN OpsM ELSE {<<"get", 0, "-">>, <<"del", 0, "-">>, <<"set", 1, "same">>}
 
 (* State machine: root -> group (container, operation, length) -> leaf (one row).  *)
 (* The two levels only spread the work over TLC's workers.                          *)
@@ -293,14 +295,14 @@ Cell(r, i) == <<r, i.o, i.hz>>
 Init == cse = [lvl |-> 0] /\ row = <<>>
 GroupOk(c, om, n) ==
   /\ Compiles(c, om[1])
-  /\ Part = "index" => om[2] = 1 /\ om[1] \in {"get", "set", "del"}
+  /\ Part = "index" => om \in {<<"get", 1, "-">>, <<"del", 1, "-">>, <<"set", 1, "same">>}
   /\ Part = "slice" => om \in OpsM
   /\ Part = "xslice" => c \in XConts /\ om \in XOps(c) /\ n >= 0
 Group ==
   /\ cse.lvl = 0
-  /\ \E c \in Conts, om \in OpsM \cup {<<"get", 1>>, <<"del", 1>>}, n \in Lens :
+  /\ \E c \in Conts, om \in OpsM \cup {<<"get", 1, "-">>, <<"del", 1, "-">>}, n \in Lens :
         /\ GroupOk(c, om, n)
-        /\ cse' = [lvl |-> 1, c |-> c, op |-> om[1], m |-> om[2], n |-> n]
+        /\ cse' = [lvl |-> 1, c |-> c, op |-> om[1], m |-> om[2], rhs |-> om[3], n |-> n]
   /\ row' = <<>>
 \* With the default nonecheck=False, C-integer indexing of a str/bytes/bytearray-typed variable that holds None is
 \* not guarded (only list/tuple get an explicit test): outside the property's quantifier (a sequence of length 0..8).
@@ -310,18 +312,22 @@ IndexCase ==
   /\ cse.lvl = 1 /\ Part = "index"
   /\ \E t \in ITypes :
         /\ ~NoneUnchecked(cse.c, t, cse.op, cse.n)
-        /\ cse' = [lvl |-> 2, c |-> cse.c, op |-> cse.op, m |-> cse.m, n |-> cse.n, t |-> t]
+        /\ cse' = [lvl |-> 2, c |-> cse.c, op |-> cse.op, m |-> cse.m, rhs |-> cse.rhs, n |-> cse.n, t |-> t]
         /\ row' = [v \in IdxDom(t) |-> Cell(RefIndex(cse.c, t, cse.op, cse.n, v), ImplIndex(cse.c, t, cse.op, cse.n, v))]
 SliceCase ==
   /\ cse.lvl = 1 /\ Part = "slice"
   /\ \E sb \in SliceStarts :
-        /\ cse' = [lvl |-> 2, c |-> cse.c, op |-> cse.op, m |-> cse.m, n |-> cse.n, sb |-> sb]
+        /\ cse' = [lvl |-> 2, c |-> cse.c, op |-> cse.op, m |-> cse.m, rhs |-> cse.rhs, n |-> cse.n, sb |-> sb]
         /\ row' = [eb \in StopDom(sb) |-> LET r == RefSliceB(cse.c, cse.op, cse.m, cse.n, sb, eb) IN Cell(r, ImplSlice(cse.c, cse.op, cse.m, cse.n, sb, eb, r))]
-XSliceCase ==   \* x[s:e:st] is PyObject_GetItem/SetItem/DelItem with a slice object: no Cython logic of its own
+\* x[s:e:st] is PyObject_GetItem/SetItem/DelItem with a slice object; the only Cython logic: IndexNode.analyse_as_pyobject
+\* gives the target `x[s:e:st]` of a builtin-typed x the type of x, and the assigned value is type-tested against it
+ImplXSlice(c, op, rhs, r) ==
+  IF c.decl = "typed" /\ op = "set" /\ rhs = "other" THEN [o |-> ET, hz |-> "rhs_type"] ELSE Ok(r)
+XSliceCase ==
   /\ cse.lvl = 1 /\ Part = "xslice"
   /\ \E s \in XVals, st \in XSteps :
-        /\ cse' = [lvl |-> 2, c |-> cse.c, op |-> cse.op, m |-> cse.m, n |-> cse.n, s |-> s, st |-> st]
-        /\ row' = [e \in XVals |-> LET r == RefSlice(cse.c.kind, cse.op, cse.m, cse.n, s, e, st) IN <<r, r, "none">>]
+        /\ cse' = [lvl |-> 2, c |-> cse.c, op |-> cse.op, m |-> cse.m, rhs |-> cse.rhs, n |-> cse.n, s |-> s, st |-> st]
+        /\ row' = [e \in XVals |-> LET r == RefSlice(cse.c.kind, cse.op, cse.m, cse.n, s, e, st) IN Cell(r, ImplXSlice(cse.c, cse.op, cse.rhs, r))]
 Next == Group \/ IndexCase \/ SliceCase \/ XSliceCase
 Spec == Init /\ [][Next]_vars
 Leaf == cse.lvl = 2
@@ -332,13 +338,14 @@ Keys == DOMAIN row
 \* the property on the model: the generated code computes what Python computes ...
 ImplAgrees == \A k \in Keys : row[k][1] = row[k][2]
 \* ... which the model refutes (SeqIndex_strict.cfg); everywhere else:
-Deviates(k) == row[k][3] \in {"ub", "bound_overflow"}
+Deviates(k) == row[k][3] \in {"ub", "bound_overflow", "rhs_type"}
 ImplAgreesOffHazards == \A k \in Keys : Deviates(k) \/ row[k][1] = row[k][2]
 \* the deviations are confined to slicing of builtin-typed variables:
 \*   C undefined behaviour only in __Pyx_crop_slice (list/tuple, reading), when start exceeds the length and stop is far below zero;
 \*   OverflowError only for object bounds outside Py_ssize_t
 HazardsConfined == \A k \in Keys : Deviates(k) =>
-   /\ Part = "slice" /\ cse.c.decl = "typed"
+   /\ cse.c.decl = "typed"
+   /\ (Part = "slice" /\ row[k][3] # "rhs_type") \/ (Part = "xslice" /\ row[k][3] = "rhs_type" /\ cse.op = "set" /\ cse.rhs = "other")
    /\ (row[k][3] = "ub" => (cse.op = "get" /\ cse.c.kind \in {"list", "tuple"} /\ row[k][2] = "?crop_slice_sub_overflow"))
    /\ (row[k][3] = "bound_overflow" => \E b \in {cse.sb, k} : BForm(b) = "oint" /\ ~InSsize(BVal(b)))
 \* exactly when: start beyond the length and stop so far below zero that `stop + length - start` leaves Py_ssize_t
